@@ -82,6 +82,11 @@ def _one(job):
         tpl = work / "templates"
         tpl.mkdir()
         roots = {r for rs in ROOTS.values() for r in rs}
+        if S == ["__extra__"]:          # files the generator never looks up: a stray note, a template of no packaged name, an empty sub-directory
+            (tpl / "NOTES.txt").write_text("not a template {% endfor %}")
+            (tpl / "unused_template.py.jinja").write_text("{{ undefined_variable.x }}")
+            (tpl / "property_templates").mkdir()
+            S = []
         for t in S:
             (tpl / t).parent.mkdir(parents=True, exist_ok=True)
             text = (src / t).read_text()
@@ -105,7 +110,7 @@ def _one(job):
             served[name] = "custom" if tpl is not None and fn.startswith(str(tpl)) else "package"
         proj = pr.project_dir
         tree = {str(p.relative_to(proj)): p.read_bytes().decode("utf-8") for p in sorted(proj.rglob("*")) if p.is_file()}
-        return {"S": S, "served": served, "tree": tree, "pkg": pr.package_name, "diags": len(errs), "exc": None}
+        return {"S": job[0], "served": served, "tree": tree, "pkg": pr.package_name, "diags": len(errs), "exc": None}
     except Exception as e:  # noqa: BLE001
         import traceback
         return {"S": S, "exc": traceback.format_exc(limit=-6)}
@@ -149,6 +154,9 @@ def run_leg(rep, d: Path, quick: bool, rnd) -> None:
     base = outs[0]
     if base.get("exc"):
         raise tlc.TlcFailure("baseline generation failed:\n" + base["exc"])
+    extra = _one((["__extra__"], str(d / "tpl-extra"), "setup"))
+    if extra.get("exc") or extra["tree"] != base["tree"] or "custom" in extra["served"].values():
+        rep.violate("C16/custom-template-touches-other-files/stray-files", "a custom template directory holding only files the generator never looks up (a note, a template of no packaged name, an empty property_templates/) changes the output or fails: " + str(extra.get("exc"))[-300:])
     obs = []
     for o in outs[1:]:
         S = sorted(o["S"])
